@@ -211,7 +211,7 @@ def node_t1(F, res):
     for f in F.fns.values():
         if f.get("impl_trait") == NODE and f.get("name") == "apply" and f["impl_self"] in F.adts:
             n += 1
-            res.add(e3.check_impl_method(F, f, f["impl_self"], fam, "val", "T1", rows))
+            res.add(e3.check_impl_method(F, f, f["impl_self"], fam, "val", "T1", rows, family_traits=(APPLY, COMPOSITE, NODE)))
     res.floor("Node impl methods on ADTs", n, 18)
 
 
